@@ -396,7 +396,11 @@ def judge_syntax(s, kind, msg, cfg, out, sql, col):
             bad('caret-occurrence', 'error_location', [], '%s: text before the carets %r, source before '
                 'token %d %r' % (where, norm(last[:ccol]), k, norm(prefix_src)))
     else:
-        if (clen != 1 or ccol == 0 or last[ccol - 1:ccol].strip() == '' or not mutate.WS_RE.fullmatch(last[ccol:])
+        # what follows the caret on the shown line is what follows the last token on that line of the source: blanks
+        # and comments only, possibly the beginning of a comment that goes on in the next line
+        rest_src = s[spans[-1][3]:].split('\n')[0]
+        rest_ok = mutate.WS_RE.fullmatch(last[ccol:]) or last[ccol:].strip() == rest_src.strip()
+        if (clen != 1 or ccol == 0 or last[ccol - 1:ccol].strip() == '' or not rest_ok
                 or (line_ok and not before_ok)):
             bad('caret-eof', 'error_location', sorted(ltags), '%s: caret col %d len %d, shown line %r; expected one '
                 'caret just after %r' % (where, ccol, clen, last, spans[-1][1]))
